@@ -2,6 +2,8 @@
 import json, os, collections
 from common import REPO
 
+READY = True
+
 META = {
     "technique": "Lean 4 proof (slice model = CPython PySlice_AdjustIndices for all lists/bounds/steps) + exhaustive correspondence on the quantifier's box",
     "category": "proof",
